@@ -10,7 +10,7 @@
 //   harness may install a hook that runs consumer/producer steps of the other party there
 //   (that is how interleavings "at lock and wake granularity" are explored without threads).
 // * Arc: non-atomic reference count (the model is single-threaded).
-// * VecDeque: a Vec with pop_front = remove(0).
+// * VecDeque: inline fixed-capacity array queue (QCAP elements).
 // * io: see shims/flate2/src/model_io.rs.
 #![allow(dead_code)]
 
@@ -160,52 +160,96 @@ impl<T> Drop for Arc<T> {
     }
 }
 
+/// Inline fixed-capacity queue (no heap: see the note on HeaderMap in shims/http).
+/// Exceeding QCAP elements is reported as a model-capacity assertion, never silently.
+pub const QCAP: usize = 8;
 pub struct VecDeque<T> {
-    v: Vec<T>,
+    items: [Option<T>; QCAP],
+    len: usize,
 }
 impl<T> VecDeque<T> {
     pub fn new() -> VecDeque<T> {
-        VecDeque { v: Vec::new() }
+        VecDeque { items: [const { None }; QCAP], len: 0 }
     }
-    pub fn with_capacity(n: usize) -> VecDeque<T> {
-        VecDeque { v: Vec::with_capacity(n) }
+    pub fn with_capacity(_n: usize) -> VecDeque<T> {
+        VecDeque::new()
     }
     pub fn len(&self) -> usize {
-        self.v.len()
+        self.len
     }
     pub fn is_empty(&self) -> bool {
-        self.v.is_empty()
+        self.len == 0
     }
     pub fn push_back(&mut self, t: T) {
-        self.v.push(t)
+        assert!(self.len < QCAP, "verif_std::VecDeque: model capacity exceeded");
+        self.items[self.len] = Some(t);
+        self.len += 1;
     }
     pub fn push_front(&mut self, t: T) {
-        self.v.insert(0, t)
+        assert!(self.len < QCAP, "verif_std::VecDeque: model capacity exceeded");
+        let mut i = QCAP - 1;
+        while i > 0 {
+            if i <= self.len {
+                self.items[i] = self.items[i - 1].take();
+            }
+            i -= 1;
+        }
+        self.items[0] = Some(t);
+        self.len += 1;
     }
     pub fn pop_front(&mut self) -> Option<T> {
-        if self.v.is_empty() {
-            None
-        } else {
-            Some(self.v.remove(0))
+        if self.len == 0 {
+            return None;
         }
+        let r = self.items[0].take();
+        let mut i = 0;
+        while i + 1 < QCAP {
+            if i + 1 < self.len {
+                self.items[i] = self.items[i + 1].take();
+            }
+            i += 1;
+        }
+        self.len -= 1;
+        r
     }
     pub fn pop_back(&mut self) -> Option<T> {
-        self.v.pop()
+        if self.len == 0 {
+            return None;
+        }
+        self.len -= 1;
+        self.items[self.len].take()
     }
     pub fn front(&self) -> Option<&T> {
-        self.v.first()
+        if self.len == 0 {
+            None
+        } else {
+            self.items[0].as_ref()
+        }
     }
     pub fn back(&self) -> Option<&T> {
-        self.v.last()
+        if self.len == 0 {
+            None
+        } else {
+            self.items[self.len - 1].as_ref()
+        }
     }
     pub fn clear(&mut self) {
-        self.v.clear()
-    }
-    pub fn iter(&self) -> std::slice::Iter<'_, T> {
-        self.v.iter()
+        let mut i = 0;
+        while i < QCAP {
+            self.items[i] = None;
+            i += 1;
+        }
+        self.len = 0;
     }
     pub fn get(&self, i: usize) -> Option<&T> {
-        self.v.get(i)
+        if i < self.len {
+            self.items[i].as_ref()
+        } else {
+            None
+        }
+    }
+    pub fn iter(&self) -> impl Iterator<Item = &T> {
+        self.items.iter().filter_map(|x| x.as_ref())
     }
 }
 impl<T> Default for VecDeque<T> {
